@@ -6,6 +6,7 @@ import (
 	"time"
 
 	"github.com/buildbuildio/pebbles/format"
+	"github.com/vektah/gqlparser/v2/ast"
 )
 
 type hashKey [20]byte
@@ -41,8 +42,29 @@ func (cp *CachedPlanner) hash(ctx *PlanningContext) hashKey {
 	s := format.NewBufferedFormatter().FormatSelectionSet(ctx.Operation.SelectionSet)
 	// the plan also depends on the operation type and name
 	s = string(ctx.Operation.Operation) + " " + ctx.Operation.Name + " " + s
+	// the formatter prints a named fragment's name and body, but not the type it applies to
+	s += fragmentTypeConditions(ctx.Operation.SelectionSet)
 	sha1 := sha1.Sum([]byte(s))
 	return sha1
+}
+
+func fragmentTypeConditions(selectionSet ast.SelectionSet) string {
+	var res string
+	for _, selection := range selectionSet {
+		switch s := selection.(type) {
+		case *ast.Field:
+			res += fragmentTypeConditions(s.SelectionSet)
+		case *ast.InlineFragment:
+			res += fragmentTypeConditions(s.SelectionSet)
+		case *ast.FragmentSpread:
+			if s.Definition == nil {
+				continue
+			}
+			res += " " + s.Name + " on " + s.Definition.TypeCondition
+			res += fragmentTypeConditions(s.Definition.SelectionSet)
+		}
+	}
+	return res
 }
 
 func (cp *CachedPlanner) clean() {
